@@ -151,11 +151,11 @@ def compare(ctx, cases, impl, model, stats):
         if fi.get("popv") is not None and (fi.get("popv") != "runtime:occupied" or fi.get("pop") != "unchanged"):
             report("occupied-not-refused" if fi.get("popv") != "runtime:occupied" else "reject-changes-table", replay,
                    "fit on a populated table must throw 'already contains data' and change nothing: popv=%s pop=%s" % (fi.get("popv"), fi.get("pop")))
-        stats_extra["nowrap0"] += fm.get("nowrap") == "0"
-        stats_extra["underdetermined"] += fm.get("ud") == "1"
+        stats_extra["accepted_nowrap0"] += fm.get("nowrap") == "0" and mv.startswith("ok shape")
+        stats_extra["accepted_underdetermined"] += fm.get("ud") == "1" and mv.startswith("ok shape")
         stats_extra["glamfail"] += iv.startswith("glamfail")
-        if fm.get("ud") == "1" and iv.startswith("ok shape") and fi.get("finite") == "1":
-            stats_extra["underdetermined_finite"] += 1
+        if fm.get("ud") == "1" and iv.startswith("ok shape"):
+            stats_extra["underdetermined_reported_success_nonfinite" if fi.get("finite") == "0" else "underdetermined_reported_success_finite"] += 1
         if "c" in fi and fi["c"] != "na":
             threw = not iv.startswith("ok")
             if (fi["c"] != "0") != threw:
@@ -238,9 +238,10 @@ def run(ctx):
     ctx.coverage["evaluations"] = n
     ctx.coverage["distinct_nontrivial"] = len(seen)
     ctx.coverage["rule"] = ("cases from harness/fit_harness.cpp gen (VERIF_SEED): 36 plain valid fits, every single (argument, variant) "
-                            "in 1..3 dimensions twice, and random points of the cross product (each argument independently valid or one of its "
+                            "in 1..3 dimensions twice, 8 consistent cases of absurd size (2^64 coefficients and more in 8..16 dimensions: the "
+                            "failure path behind the sanity block), and random points of the cross product (each argument independently valid or one of its "
                             "invalid variants); every case is non-trivial (a real fit() call on a fresh table, a second one on a populated "
-                            "table when rejected, and the C wrapper when expressible); distinct = distinct argument tuples")
+                            "table, and the C wrapper when expressible); distinct = distinct argument tuples")
     dist = json.load(open(stats)); dist["verdicts"] = dict(hist)
     ctx.coverage["input_distribution"] = dist
     ctx.assumptions += [
